@@ -93,26 +93,134 @@ theorem owed_cleared_only_by_update (s s' : MSt) (a : MAct) (hs : s.step a = som
     exact absurd hc hn
 
 /-- **coalescing**: interrupts of one component raised before it is served share one wakeup
-entry, stamped with the first of them. -/
+entry, recorded for the first of them.
+
+Statement adapted to the repaired `schedule_interrupt` (an interrupt no longer displaces an EARLIER
+wakeup of the same component): the old conclusion `alookup s2.pend c = some i1` is now false when
+`c` already had a wakeup before `i1` — what is recorded is `s.intWhen c i1 = min(existing wakeup, i1)`,
+never later than the stamp `i1` of the first interrupt (and exactly `i1` when `c` had no wakeup,
+`interrupts_coalesce_fresh`). -/
 theorem interrupts_coalesce (s s1 s2 : MSt) (h : MInv s) (c : Comp) (i1 i2 : SimTime)
     (hfresh : alookup s.pend c = none)
     (h1 : s.step (.interrupt c i1) = some s1) (h2 : s1.step (.interrupt c i2) = some s2) :
-    alookup s2.pend c = some i1 ∧ (s2.wake.filter (fun e => e.1 == c)).length = 1 := by
+    alookup s2.pend c = some (s.intWhen c i1) ∧ s.intWhen c i1 ≤ i1 ∧
+      (s2.wake.filter (fun e => e.1 == c)).length = 1 := by
   have hI1 := h.step _ h1
   have hI2 := hI1.step _ h2
-  have hp1 : alookup s1.pend c = some i1 := by
-    simp only [MSt.step, Option.some.injEq] at h1
+  have hp1 : alookup s1.pend c = some (s.intWhen c i1) := by
+    rw [MSt.step_interrupt_eq] at h1
+    simp only [Option.some.injEq] at h1
     subst h1
     simp [hfresh, ms_alookup_upsert]
-  have hp2 : alookup s2.pend c = some i1 := by
-    simp only [MSt.step, Option.some.injEq] at h2
+  have hp2 : alookup s2.pend c = some (s.intWhen c i1) := by
+    rw [MSt.step_interrupt_eq] at h2
+    simp only [Option.some.injEq] at h2
     subst h2
     simp [hp1]
-  refine ⟨hp2, ?_⟩
-  obtain ⟨w, hw, _⟩ := hI2.pend_wake c i1 hp2
+  refine ⟨hp2, s.intWhen_le c i1, ?_⟩
+  obtain ⟨w, hw, _⟩ := hI2.pend_wake c _ hp2
   apply filter_key_length_one _ hI2.wakeU
   rw [← ms_alookup_isSome_iff, hw]
   rfl
+
+/-- the old form of `interrupts_coalesce`: when `c` has no wakeup at all, the record is the stamp of
+the first interrupt. -/
+theorem interrupts_coalesce_fresh (s s1 s2 : MSt) (h : MInv s) (c : Comp) (i1 i2 : SimTime)
+    (hfresh : alookup s.pend c = none) (hnw : alookup s.wake c = none)
+    (h1 : s.step (.interrupt c i1) = some s1) (h2 : s1.step (.interrupt c i2) = some s2) :
+    alookup s2.pend c = some i1 ∧ (s2.wake.filter (fun e => e.1 == c)).length = 1 := by
+  obtain ⟨hp, _, hl⟩ := interrupts_coalesce s s1 s2 h c i1 i2 hfresh h1 h2
+  rw [s.intWhen_none c i1 hnw] at hp
+  exact ⟨hp, hl⟩
+
+/-- **the tick serving an interrupt is not later than its stamp**: right after
+`schedule_interrupt(c)` stamped `stamp`, the wakeup entry of `c` is at most `stamp` — whether or
+not an earlier interrupt or an earlier callback of `c` is still pending.  (With `not_displaced`
+this stays so until the interrupt is served.) -/
+theorem interrupt_wake_le_stamp (s s' : MSt) (c : Comp) (stamp : SimTime)
+    (hs : s.step (.interrupt c stamp) = some s') :
+    ∃ w', alookup s'.wake c = some w' ∧ w' ≤ stamp := by
+  rw [MSt.step_interrupt_eq] at hs
+  simp only [Option.some.injEq] at hs
+  subst hs
+  have hle := s.intWhen_le c stamp
+  show ∃ w', alookup (MSt.addWakeup _ c (s.intWhen c stamp)) c = some w' ∧ w' ≤ stamp
+  unfold MSt.addWakeup
+  simp only [SimTime] at *
+  split
+  · refine ⟨_, by rw [ms_alookup_upsert, if_pos rfl], ?_⟩
+    split <;> omega
+  · exact ⟨_, by rw [ms_alookup_upsert, if_pos rfl], hle⟩
+
+/-- the record of a fresh interrupt is not later than its stamp. -/
+theorem interrupt_record_le_stamp (s s' : MSt) (c : Comp) (stamp : SimTime)
+    (hfresh : alookup s.pend c = none) (hs : s.step (.interrupt c stamp) = some s') :
+    ∃ i, alookup s'.pend c = some i ∧ i ≤ stamp := by
+  rw [MSt.step_interrupt_eq] at hs
+  simp only [Option.some.injEq] at hs
+  subst hs
+  exact ⟨s.intWhen c stamp, by simp [hfresh, ms_alookup_upsert], s.intWhen_le c stamp⟩
+
+/-- with the invariant, the wakeup entry of a component whose callback is due not later than the
+stamp stays exactly `w` (a pending interrupt of `c` is
+recorded no earlier than `c`'s wakeup, so it cannot lower the entry either). -/
+theorem interrupt_keeps_earlier_callback_eq (s s' : MSt) (h : MInv s) (c : Comp) (w stamp : SimTime)
+    (hw : alookup s.wake c = some w) (hle : w ≤ stamp)
+    (hs : s.step (.interrupt c stamp) = some s') :
+    alookup s'.wake c = some w := by
+  rw [MSt.step_interrupt_eq, s.intWhen_of_le c w stamp hw hle] at hs
+  simp only [Option.some.injEq] at hs
+  subst hs
+  show alookup (MSt.addWakeup _ c w) c = some w
+  unfold MSt.addWakeup
+  cases hp : alookup s.pend c with
+  | none =>
+    simp [ms_alookup_upsert]
+  | some i =>
+    obtain ⟨w0, hw0, hwi⟩ := h.pend_wake c i hp
+    rw [hw] at hw0
+    cases hw0
+    have hni : ¬ i < w := by simp only [SimTime] at *; omega
+    simp [hp, ms_alookup_upsert, hni]
+
+/-- **an already due callback is never displaced by an interrupt** (the repaired
+`schedule_interrupt`, `when = min(existing wakeup, stamp)`): if `c` has a wakeup at `w ≤ stamp`
+when its interrupt stamped `stamp` is scheduled, the wakeup entry of `c` afterwards is still not
+later than `w`. -/
+theorem interrupt_keeps_earlier_callback (s s' : MSt) (h : MInv s) (c : Comp) (w stamp : SimTime)
+    (hw : alookup s.wake c = some w) (hle : w ≤ stamp)
+    (hs : s.step (.interrupt c stamp) = some s') :
+    ∃ w', alookup s'.wake c = some w' ∧ w' ≤ w := by
+  exact ⟨w, interrupt_keeps_earlier_callback_eq s s' h c w stamp hw hle hs, Int.le_refl _⟩
+
+/-- exact form without the invariant: a strictly earlier wakeup and no pending interrupt recorded
+for `c` — the entry stays exactly `w`, and `w` (not the stamp) is what is recorded as pending. -/
+theorem interrupt_keeps_earlier_callback_exact (s s' : MSt) (c : Comp) (w stamp : SimTime)
+    (hw : alookup s.wake c = some w) (hlt : w < stamp) (hfresh : alookup s.pend c = none)
+    (hs : s.step (.interrupt c stamp) = some s') :
+    alookup s'.wake c = some w ∧ alookup s'.pend c = some w := by
+  have hle : w ≤ stamp := by simp only [SimTime] at *; omega
+  rw [MSt.step_interrupt_eq, s.intWhen_of_le c w stamp hw hle] at hs
+  simp only [Option.some.injEq] at hs
+  subst hs
+  refine ⟨?_, by simp [hfresh, ms_alookup_upsert]⟩
+  show alookup (MSt.addWakeup _ c w) c = some w
+  unfold MSt.addWakeup
+  simp [hfresh, ms_alookup_upsert]
+
+/-- conversely, a wakeup LATER than the stamp is replaced by the stamp (the interrupt is served
+promptly, it does not wait for the later callback). -/
+theorem interrupt_replaces_later_callback (s s' : MSt) (c : Comp) (w stamp : SimTime)
+    (hw : alookup s.wake c = some w) (hlt : stamp ≤ w) (hfresh : alookup s.pend c = none)
+    (hs : s.step (.interrupt c stamp) = some s') :
+    alookup s'.wake c = some stamp ∧ alookup s'.pend c = some stamp := by
+  rw [MSt.step_interrupt_eq, s.intWhen_of_ge c w stamp hw hlt] at hs
+  simp only [Option.some.injEq] at hs
+  subst hs
+  refine ⟨?_, by simp [hfresh, ms_alookup_upsert]⟩
+  show alookup (MSt.addWakeup _ c stamp) c = some stamp
+  unfold MSt.addWakeup
+  simp [hfresh, ms_alookup_upsert]
 
 /-- without the pending-interrupt record the property fails (the behaviour before the repair):
 an interrupt followed by the stale answer of the running tick is displaced. -/
@@ -123,5 +231,9 @@ theorem displaced_without_record :
   decide
 
 example : (({} : MSt).run [.interrupt "sys" 100, .output "sys" (some 5000)]).wake = [("sys", 100)] := by decide
+
+-- a callback due at 50 is kept by an interrupt stamped 100; one due at 5000 is replaced
+example : (({} : MSt).run [.output "sys" (some 50), .interrupt "sys" 100]).wake = [("sys", 50)] := by decide
+example : (({} : MSt).run [.output "sys" (some 5000), .interrupt "sys" 100]).wake = [("sys", 100)] := by decide
 
 end Tickit
